@@ -1,6 +1,7 @@
 import PartituraModel.Wire
 import PartituraModel.Model.Kern
 import PartituraModel.Model.Mei
+import PartituraModel.Model.MeiAccept
 import PartituraModel.Model.KernWrite
 import PartituraModel.Model.LoadDispatch
 import PartituraModel.Model.MeiWrite
@@ -212,7 +213,7 @@ def handle (ts : List String) : String :=
   | "mei" :: what :: rest =>
     match run meiDoc rest with
     | none => "bad-request"
-    | some evs => orErr ((Mei.denote evs).map (meiAnswer what))
+    | some evs => orErr ((Mei.load evs).map (meiAnswer what))
   | "kval" :: rest =>
     orErr <| (run (do let r ← str; let d ← nat; pure (r, d)) rest).bind fun (r, d) =>
       ((Kern.parseRecip r.toList).bind fun rc => Kern.value rc d).map fmtRat
